@@ -213,6 +213,24 @@ def tableSum {α : Type} [Add α] [Zero α] {n : Nat} (φ : Nat → α) (cx cy :
 /-- the non-empty cells in the order of `np.unique(cx + cy*1j)` (sorted by x-rank, then y-rank) -/
 def jointSizes {n : Nat} (cx cy : Vector Int n) : List Nat := ((table cx cy).flatten).filter (· ≠ 0)
 
+/-! ### the formula of `partition_distance`, generic in the number type and in the logarithm
+
+`pdWith L n nx ny nxy` is evaluated by the driver over `Rat` with `L k` = the double `log k` (sent by the harness as an exact
+dyadic rational) on the three count lists it prints, and `Props/C14.lean` proves that the same definition over `ℝ` with
+`L = Real.log` is `(VIn, MIn)` (`pd_of_table`).  `-(k/N) (L k - L N)` is `-(k/N) log (k/N)`. -/
+
+def entW {α : Type} [Sub α] [Mul α] [Div α] [Neg α] [NatCast α] (L : Nat → α) (N k : Nat) : α :=
+  -((k : α) / (N : α)) * (L k - L N)
+
+/-- `Vin = (2*Hxy - Hx - Hy) / log(n) if n > 1 else 0.0`, `Min = 2*(Hx + Hy - Hxy) / (Hx + Hy) if Hx + Hy > 0 else 1.0` -/
+def pdWith {α : Type} [Add α] [Sub α] [Mul α] [Div α] [Neg α] [NatCast α] [Zero α] [OfNat α 1] [LT α]
+    [DecidableRel (fun a b : α => a < b)] (L : Nat → α) (n : Nat) (nx ny nxy : List Nat) : α × α :=
+  let Hx := (nx.map (entW L n)).sum
+  let Hy := (ny.map (entW L n)).sum
+  let Hxy := (nxy.map (entW L n)).sum
+  (if 1 < n then (Hxy + Hxy - Hx - Hy) / L n else 0,
+   if 0 < Hx + Hy then ((Hx + Hy - Hxy) + (Hx + Hy - Hxy)) / (Hx + Hy) else 1)
+
 /-! ## ci2ls / ls2ci -/
 
 def ci2ls {n : Nat} (c : Vector Int n) : List (List (Fin n)) :=
@@ -330,7 +348,18 @@ def step (line : String) : String :=
     | "pdist" =>
       let cx ← parseVec n (← lookup kv "cx")
       let cy ← parseVec n (← lookup kv "cy")
-      some s!"nx={showNats (sizes cx)} ny={showNats (sizes cy)} nxy={showNats (jointSizes cx cy)}"
+      let base := s!"nx={showNats (sizes cx)} ny={showNats (sizes cy)} nxy={showNats (jointSizes cx cy)}"
+      match lookup kv "logs" with
+      | none => some base
+      | some ls =>
+        -- logs = the doubles log 1 .. log n as exact rationals; log n must not vanish where the code divides by it
+        let lg ← parseRats ls
+        if lg.length != n then none
+        let a := lg.toArray
+        let L : Nat → Rat := fun k => if h : 0 < k ∧ k - 1 < a.size then a[k - 1]'h.2 else 0
+        if 1 < n ∧ L n = 0 then none
+        let (v, m) := pdWith L n (sizes cx) (sizes cy) (jointSizes cx cy)
+        some s!"{base} vin={showRat v} min={showRat m}"
     | "ci2ls" =>
       let c ← parseVec n (← lookup kv "c")
       some s!"ls={"|".intercalate ((ci2ls c).map fun b => showNats (b.map (·.val)))}"
